@@ -277,6 +277,14 @@ class BatchShape(object):
         if 'IndexError' in names and h.body and isinstance(h.body[-1], (ast.Return, ast.Break)) and \
            not any(isinstance(x, (ast.Yield,)) for x in ast.walk(h)):
           self.quiet_empty = 'IndexError handler'
+        elif ('IndexError' in names or 'LookupError' in names) and lp is not None and \
+            not any(isinstance(x, (ast.Yield, ast.Raise)) for x in ast.walk(h)):
+          # the try encloses the whole loop (`try: for ...: batch.append(q.popleft())  except IndexError: pass`): the handler
+          # ends the loop by construction; what follows the try still returns the batch built so far
+          tr = getattr(h, '_parent', None)
+          if isinstance(tr, ast.Try) and any(lp is s_ or any(lp is y for y in ast.walk(s_)) for s_ in tr.body) and \
+             all(isinstance(x, (ast.Pass, ast.Expr)) for x in h.body):
+            self.quiet_empty = 'IndexError handler around the loop'
 
   def _stmt_of(self, e):
     p = e
